@@ -16,7 +16,7 @@ func init() {
 		w.WriteString("namespace SamVerif.Gen.Codec\n\n")
 		n := 0
 		for _, k := range []struct{ file, name string }{
-			{codec, "maxArrayLen"}, {codec, "maxBulkStringLen"}, {codec, "minItoa"}, {codec, "maxItoa"},
+			{codec, "maxArrayLen"}, {codec, "maxBulkStringLen"}, {codec, "maxArrayDepth"}, {bufio, "maxLineLen"}, {codec, "minItoa"}, {codec, "maxItoa"},
 			{bufio, "defaultBufferSize"}, {codec, "CR"}, {codec, "LF"},
 			{resp, "SimpleString"}, {resp, "Error"}, {resp, "Integer"}, {resp, "BulkString"}, {resp, "Array"},
 		} {
